@@ -10,8 +10,8 @@ LEVEL = "other"
 
 
 def check_header_regex(ctx, r, info):
-    if info is None:
-        return
+    if info is None or not info.get("prog") or not info.get("method"):
+        return  # the framing rule has already reported that it cannot find the header test
     f = info["func"]
     pat = regex_of(ctx, CHART, info["prog"]).pattern
     impl = impl_pattern(ctx, r, f, pat, info["method"])
